@@ -81,7 +81,7 @@ structure Rec where
   /-- DNSKEY / DS: `algorithm().is_supported()` -/
   algSupp : Bool := false
   /-- DS: `digest_type().is_supported()` -/
-  digSupp : Bool := false
+  digSupp : Bool := false  -- (for DNSKEY records: the flags make the key usable — zone-key bit set, REVOKE clear; class predicate only)
   proof : Proof := .indet
   deriving DecidableEq, Repr, Inhabited
 
@@ -569,6 +569,14 @@ def anchorKeyForeignOwner (env : Env) (trace : List (Query × UpOut)) : Bool :=
   trace.any fun e =>
     match e.2 with
     | .ok m | .noRecords m => m.all.any fun r => r.rtype == tDNSKEY && env.anchor r.rid && !r.name.isRoot
+    | _ => false
+
+/-- `C07.AnchorKeyUnusableFlagsSecure` (open, same root cause): a DNSKEY whose key is a trust anchor but whose flags make it
+unusable — zone-key bit clear or REVOKE set (`Rec.digSupp = false` for DNSKEY records) -/
+def anchorKeyUnusableFlags (env : Env) (trace : List (Query × UpOut)) : Bool :=
+  trace.any fun e =>
+    match e.2 with
+    | .ok m | .noRecords m => m.all.any fun r => r.rtype == tDNSKEY && env.anchor r.rid && !r.digSupp
     | _ => false
 
 /-! ## the concrete shape of the `covers` oracle (`DS::covers`, crates/proto/src/dnssec/rdata/ds.rs) -/
